@@ -108,12 +108,12 @@ impl SyncOp {
                 // if the value is the same, there's no conflict
                 if value1 == value2 {
                     (None, None)
-                } else if timestamp1 < timestamp2 {
-                    // prefer the later modification
+                } else if timestamp1 < timestamp2 || (timestamp1 == timestamp2 && value1 < value2) {
+                    // prefer the later modification or, if the modifications have the same
+                    // timestamp, the greater value, so that the choice does not depend on
+                    // which replica synchronized first
                     (None, Some(operation2))
                 } else {
-                    // prefer the later modification or, if the modifications are the same,
-                    // just choose one of them
                     (Some(operation1), None)
                 }
             }
